@@ -1337,6 +1337,7 @@ func (m *Machine) queueMutation(
 	}
 	mut.cacheCalled.Store(&statesParsed)
 
+	verifPoint(m, "q:enq")
 	// work the queue and persist in the mutation
 	m.queueMx.Lock()
 	if m.id == "ns-TestManyStates" {
@@ -2030,12 +2031,14 @@ func (m *Machine) breakpoint(added S, removed S) {
 // processQueue processes the queue of mutations. It's the main loop of the
 // machine.
 func (m *Machine) processQueue() Result {
+	verifPoint(m, "pq:entry")
 	// empty queue
 	if m.queueLen.Load() == 0 || m.disposing.Load() {
 		return Canceled
 	}
 
 	// try to acquire the lock TODO safer locking for handler deadlines?
+	verifPoint(m, "pq:cas")
 	if !m.queueProcessing.CompareAndSwap(false, true) {
 
 		m.queueMx.Lock()
@@ -2054,8 +2057,10 @@ func (m *Machine) processQueue() Result {
 
 	// execute the queue
 	m.queueRunning.Store(false)
+	verifPoint(m, "pq:loop")
 	for m.queueLen.Load() > 0 {
 		m.queueRunning.Store(true)
+		verifPoint(m, "pq:pop")
 
 		if m.disposing.Load() {
 			return Canceled
@@ -2118,12 +2123,15 @@ func (m *Machine) processQueue() Result {
 		}
 
 		t.CleanCache()
+		verifPoint(m, "pq:loop")
 	}
 
 	// release the locks
+	verifPoint(m, "pq:release")
 	m.t.Store(nil)
 	m.queueProcessing.Store(false)
 	m.queueRunning.Store(false)
+	verifPoint(m, "pq:released")
 
 	// tracers
 	m.tracersMx.RLock()
